@@ -204,9 +204,17 @@ func (x *Exec) modBlocks(st *State, fn *ssa.Function, blocks map[*ssa.BasicBlock
 			if a, ok := argOf[v]; ok {
 				return a, true
 			}
+			// an object the inlined callee allocates itself is fresh
+			if al, ok := v.(*ssa.Alloc); ok && al.Heap && x.isHeapStruct(al.Type().(*types.Pointer).Elem()) != nil {
+				return Val{S: "@fresh"}, true
+			}
 			return Val{}, false
 		}
 		if inLoop(v) {
+			// an object allocated inside the loop is fresh: writes to it change nothing that existed at loop entry
+			if al, ok := v.(*ssa.Alloc); ok && al.Heap && x.isHeapStruct(al.Type().(*types.Pointer).Elem()) != nil {
+				return Val{S: "@fresh"}, true
+			}
 			// a load from a cell that the loop does not write is loop-invariant
 			if u, ok := v.(*ssa.UnOp); ok && u.Op == token.MUL {
 				if al, ok := u.X.(*ssa.Alloc); ok && !inLoop(al) && !x.storedIn(blocks, al) {
@@ -245,6 +253,12 @@ func (x *Exec) modBlocks(st *State, fn *ssa.Function, blocks map[*ssa.BasicBlock
 			}
 			si := U.structInfo(nt)
 			base, known := resolve(a.X)
+			if known && base.S == "@fresh" {
+				if si.Sum == "" {
+					m.heapMod(heapName(si, a.Field), si.Fields[a.Field].Sort).Alloc = true
+				}
+				return
+			}
 			if known && base.A != nil && base.T == "" && base.A.ObjID > 0 {
 				fs := m.Cells[base.A.ObjID]
 				if fs == nil {
@@ -506,7 +520,9 @@ func (x *Exec) modsFromContract(st *State, callee *ssa.Function, ct *Contract, p
 			p := a[4 : len(a)-1]
 			si := U.byName["strings.Builder"]
 			hn := heapName(si, 0)
-			if v, ok := param(p); ok && v.T != "" {
+			if v, ok := param(p); ok && v.S == "@fresh" {
+				m.heapMod(hn, "Out").Alloc = true
+			} else if ok && v.T != "" {
 				m.addBase(hn, "Out", v.T)
 			} else {
 				m.heapMod(hn, "Out").Any = true
@@ -537,7 +553,9 @@ func (x *Exec) modsFromContract(st *State, callee *ssa.Function, ct *Contract, p
 					limitf("%s: assigns %q: no such field", ct.Func, a)
 				}
 				hn := heapName(si, fi)
-				if v, ok := param(parts[0]); ok && v.T != "" {
+				if v, ok := param(parts[0]); ok && v.S == "@fresh" {
+					m.heapMod(hn, si.Fields[fi].Sort).Alloc = true
+				} else if ok && v.T != "" {
 					m.addBase(hn, si.Fields[fi].Sort, v.T)
 				} else {
 					m.heapMod(hn, si.Fields[fi].Sort).Any = true
